@@ -6,10 +6,12 @@
 package sshdvec
 
 import (
+	"bytes"
 	"context"
 	"encoding/json"
 	"fmt"
 	"math/rand"
+	"os"
 	"reflect"
 	"regexp"
 	"sort"
@@ -246,6 +248,11 @@ func Gen(r *rand.Rand, tok string) string {
 		return rs(r, lower, r.Intn(3)) + "\r\t\x1b[31m" + rs(r, lower, r.Intn(3))
 	case "<noise.empty>":
 		return ""
+	case "<pid.literal>":
+		if v := os.Getenv("VERIF_REPLAY_PID"); v != "" {
+			return v
+		}
+		return "1"
 	case "<pid.pos>":
 		return strconv.Itoa(1 + r.Intn(4194304))
 	case "<pid.one>":
@@ -326,6 +333,9 @@ type Obs struct {
 	Ctr     []CtrObs         `json:"ctr"`
 	Substr  bool             `json:"substr"`
 	Foreign []string         `json:"foreign"`
+	// Stable: every login handed over EARLIER in this session still carries the event it carried when it was
+	// handed over (the correlator keeps the login and renders its subjects / source into later events)
+	Stable bool `json:"stable"`
 }
 
 type LoginObs struct {
@@ -382,6 +392,9 @@ func leafStrings(prefix string, v any, out map[string]string) {
 	}
 }
 
+// Counters: the children of the remote-logins counter.
+func Counters(reg *prometheus.Registry) []CtrObs { return counters(reg) }
+
 func counters(reg *prometheus.Registry) []CtrObs {
 	mfs, _ := reg.Gather()
 	var out []CtrObs
@@ -418,37 +431,75 @@ const (
 	Framed             // SyslogIngester.Process("<pid><pad><message>\n")
 )
 
-// Deliver hands one line to a fresh processor and observes.
-func Deliver(mode Mode, pid, line string, pad int) Obs {
-	var seq int64
-	enc := &Enc{seq: &seq}
-	reg := prometheus.NewRegistry()
-	pm := metrics.NewPrometheusMetricsProviderForRegisterer(reg)
-	logins := make(chan common.RemoteUserLogin)
-	ctx, cancel := context.WithCancel(context.Background())
-	defer cancel()
-	proc := sshd.NewSshdProcessor(ctx, logins, NodeName, MachineID, auditevent.NewAuditEventWriter(enc), pm)
+// session: one processor with its own registry, event sink and login receiver.
+type session struct {
+	seq    int64
+	enc    *Enc
+	reg    *prometheus.Registry
+	proc   sshd.SshdProcessor
+	ctx    context.Context
+	cancel context.CancelFunc
+	done   chan struct{}
+	syncc  chan chan struct{}
+	mu     sync.Mutex
+	got    []common.RemoteUserLogin
+	gotAt  []int64
+	held   []heldLogin
+}
 
-	obs := Obs{Events: []map[string]any{}, Logins: []LoginObs{}, TsOK: true, TgtOK: true, IDOK: true, Substr: true,
-		Foreign: []string{}}
-	var got []common.RemoteUserLogin
-	var gotAt []int64
-	done := make(chan struct{})
+type heldLogin struct {
+	src  *auditevent.AuditEvent
+	snap []byte
+}
+
+func newSession() *session {
+	s := &session{done: make(chan struct{}), syncc: make(chan chan struct{})}
+	s.enc = &Enc{seq: &s.seq}
+	s.reg = prometheus.NewRegistry()
+	pm := metrics.NewPrometheusMetricsProviderForRegisterer(s.reg)
+	logins := make(chan common.RemoteUserLogin)
+	s.ctx, s.cancel = context.WithCancel(context.Background())
+	s.proc = sshd.NewSshdProcessor(s.ctx, logins, NodeName, MachineID, auditevent.NewAuditEventWriter(s.enc), pm)
 	go func() {
-		defer close(done)
+		defer close(s.done)
 		for {
 			select {
 			case l := <-logins:
-				enc.mu.Lock()
-				seq++
-				gotAt = append(gotAt, seq)
-				enc.mu.Unlock()
-				got = append(got, l)
-			case <-ctx.Done():
+				s.enc.mu.Lock()
+				s.seq++
+				at := s.seq
+				s.enc.mu.Unlock()
+				s.mu.Lock()
+				s.gotAt = append(s.gotAt, at)
+				s.got = append(s.got, l)
+				s.mu.Unlock()
+			case ch := <-s.syncc: // everything received so far has been recorded
+				close(ch)
+			case <-s.ctx.Done():
 				return
 			}
 		}
 	}()
+	return s
+}
+
+func (s *session) close() {
+	s.cancel()
+	<-s.done
+}
+
+// deliver hands one line to the session's processor and observes what that line added: events, logins, counter
+// movements (the difference of the registry before and after).
+func (s *session) deliver(mode Mode, pid, line string, pad int) Obs {
+	obs := Obs{Events: []map[string]any{}, Logins: []LoginObs{}, TsOK: true, TgtOK: true, IDOK: true, Substr: true,
+		Foreign: []string{}, Stable: true}
+	s.enc.mu.Lock()
+	ev0 := len(s.enc.Raw)
+	s.enc.mu.Unlock()
+	s.mu.Lock()
+	lg0 := len(s.got)
+	s.mu.Unlock()
+	ctr0 := counters(s.reg)
 
 	before := time.Now()
 	func() {
@@ -460,21 +511,32 @@ func Deliver(mode Mode, pid, line string, pad int) Obs {
 		var err error
 		switch mode {
 		case Direct:
-			err = proc.ProcessSshdLogEntry(ctx, sshd.SshdLogEntry{PID: pid, Message: line})
+			err = s.proc.ProcessSshdLogEntry(s.ctx, sshd.SshdLogEntry{PID: pid, Message: line})
 		case Framed:
 			h := health.NewHealth()
-			ing := syslog.NewSyslogIngester("", proc, namedpipe.NewNamedPipeIngester(zap.NewNop().Sugar(), h))
-			err = ing.Process(ctx, pid+strings.Repeat(" ", pad)+line+"\n")
+			ing := syslog.NewSyslogIngester("", s.proc, namedpipe.NewNamedPipeIngester(zap.NewNop().Sugar(), h))
+			err = ing.Process(s.ctx, pid+strings.Repeat(" ", pad)+line+"\n")
 		}
 		if err != nil {
 			obs.Err = err.Error()
 		}
 	}()
 	after := time.Now()
-	cancel()
-	<-done
+	ch := make(chan struct{})
+	s.syncc <- ch
+	<-ch
 
-	for i, raw := range enc.Raw {
+	s.enc.mu.Lock()
+	raws := append([][]byte(nil), s.enc.Raw[ev0:]...)
+	ptrs := append([]*auditevent.AuditEvent(nil), s.enc.Ptrs[ev0:]...)
+	doneAt := append([]int64(nil), s.enc.DoneAt[ev0:]...)
+	s.enc.mu.Unlock()
+	s.mu.Lock()
+	got := append([]common.RemoteUserLogin(nil), s.got[lg0:]...)
+	gotAt := append([]int64(nil), s.gotAt[lg0:]...)
+	s.mu.Unlock()
+
+	for _, raw := range raws {
 		m, tsok, tgtok, idok := Normalize(raw, before, after)
 		obs.TsOK = obs.TsOK && tsok
 		obs.TgtOK = obs.TgtOK && tgtok
@@ -497,21 +559,79 @@ func Deliver(mode Mode, pid, line string, pad int) Obs {
 			}
 		}
 		obs.Events = append(obs.Events, m)
-		_ = i
 	}
 	for i, l := range got {
 		lo := LoginObs{Pid: l.PID, Cred: l.CredUserID}
-		for j, p := range enc.Ptrs {
+		for j, p := range ptrs {
 			if p != nil && p == l.Source {
 				lo.Same = true
-				lo.After = enc.DoneAt[j] < gotAt[i]
+				lo.After = doneAt[j] < gotAt[i]
 			}
 		}
 		obs.Logins = append(obs.Logins, lo)
 	}
-	obs.Ctr = counters(reg)
+	obs.Ctr = ctrDelta(ctr0, counters(s.reg))
 	sort.Strings(obs.Foreign)
+	// logins handed over earlier must be untouched by this line
+	for _, h := range s.held {
+		if now, _ := json.Marshal(h.src); !bytes.Equal(now, h.snap) {
+			obs.Stable = false
+		}
+	}
+	for _, l := range got {
+		if l.Source != nil {
+			snap, _ := json.Marshal(l.Source)
+			s.held = append(s.held, heldLogin{src: l.Source, snap: snap})
+		}
+	}
+	if len(s.held) > 64 { // the correlator holds a login for the life of a session; a window is enough here
+		s.held = s.held[len(s.held)-64:]
+	}
 	return obs
+}
+
+// ctrDelta: the counter children that moved, with the amount.
+func ctrDelta(a, b []CtrObs) []CtrObs {
+	old := map[string]int{}
+	for _, c := range a {
+		old[c.Method+"\x00"+c.Outcome] = c.N
+	}
+	out := []CtrObs{}
+	for _, c := range b {
+		if d := c.N - old[c.Method+"\x00"+c.Outcome]; d != 0 {
+			out = append(out, CtrObs{Method: c.Method, Outcome: c.Outcome, N: d})
+		}
+	}
+	return out
+}
+
+// Deliver hands one line to a fresh processor and observes.
+func Deliver(mode Mode, pid, line string, pad int) Obs {
+	s := newSession()
+	defer s.close()
+	return s.deliver(mode, pid, line, pad)
+}
+
+// Stream is a long-lived processor (one registry, one event sink) that sees line after line, as in the daemon.
+type Stream struct{ s *session }
+
+func (st *Stream) Deliver(pid, line string) Obs {
+	if st.s == nil {
+		st.s = newSession()
+	}
+	o := st.s.deliver(Direct, pid, line, 0)
+	if o.Panic != "" { // start over after a panic (reported by the observation)
+		st.s.close()
+		st.s = nil
+	}
+	return o
+}
+
+func (st *Stream) Close() {
+	if st.s != nil {
+		st.s.close()
+		st.s = nil
+	}
 }
 
 // Normalize decodes a written event and strips what is environment specific
@@ -550,13 +670,14 @@ type Rec struct {
 	Direct  *Obs            `json:"direct,omitempty"`
 	Framed  *Obs            `json:"framed,omitempty"`
 	Fifo    *FifoObs        `json:"fifo,omitempty"`
+	Stream  *Obs            `json:"stream,omitempty"`
 	Pad     int             `json:"pad"`
 	Vec     int             `json:"vec"`
 	Conc    int             `json:"conc"`
 }
 
 // Run concretises a vector and delivers it.
-func Run(v *Vector, r *rand.Rand, vecIdx, conc int, framed bool, fifo **FifoSession, fifoDir string) Rec {
+func Run(v *Vector, r *rand.Rand, vecIdx, conc int, framed bool, fifo **FifoSession, fifoDir string, stream *Stream) Rec {
 	s := NewSubst(r, v)
 	pidtok := v.PidTok
 	if pidtok == "" {
@@ -579,6 +700,10 @@ func Run(v *Vector, r *rand.Rand, vecIdx, conc int, framed bool, fifo **FifoSess
 	}
 	d := Deliver(Direct, pid, line, 0)
 	rec.Direct = &d
+	if stream != nil {
+		so := stream.Deliver(pid, line)
+		rec.Stream = &so
+	}
 	// Framing is defined for a message that does not start with padding, a pid
 	// token without blanks, and a line without the record delimiter.
 	if framed && !strings.ContainsAny(line, "\n") && !strings.HasPrefix(line, " ") &&
